@@ -45,14 +45,65 @@ func indent(s string) string {
 	return "  " + strings.ReplaceAll(s, "\n", "\n  ")
 }
 
-// guarded wraps body in the run-time checks g
+// guarded wraps body in the run-time checks and hoisted calls g (in evaluation
+// order; entries starting with bindMark stand for a call that had to be taken
+// out of an expression because it is Res-valued)
 func (f *fn) guarded(g []string, body string) string {
-	if len(g) == 0 {
-		return body
+	res := body
+	i := len(g)
+	for i > 0 {
+		j := i
+		for j > 0 && !isBind(g[j-1]) {
+			j--
+		}
+		if j < i {
+			f.escape("run-time check")
+			f.usedPanic = true
+			res = "if " + strings.Join(g[j:i], " && ") + " then\n" + indent(res) + "\nelse Res.panic"
+		}
+		i = j
+		if i > 0 {
+			b := f.binds[g[i-1]]
+			if b.pure {
+				res = "let " + b.out + " := " + b.text + "\n" + b.after + res
+			} else {
+				f.escape("bind")
+				f.usedBind = true
+				res = "Res.bind (" + b.text + ") fun " + b.out + " =>\n" + b.after + res
+			}
+			i--
+		}
 	}
-	f.escape("run-time check")
-	f.usedPanic = true
-	return "if " + strings.Join(g, " && ") + " then\n" + indent(body) + "\nelse Res.panic"
+	return res
+}
+
+const bindMark = "\x00"
+
+type bindInfo struct {
+	out   string // name bound to the callee's result tuple
+	text  string // the call
+	pure  bool   // plain value (only hoisted because the receiver changes)
+	after string // `let`s that follow the bind (receiver / in-out write-back, result names)
+}
+
+func isBind(g string) bool { return strings.HasPrefix(g, bindMark) }
+
+func hasBind(g []string) bool {
+	for _, x := range g {
+		if isBind(x) {
+			return true
+		}
+	}
+	return false
+}
+
+func (f *fn) addBind(b *bindInfo) string {
+	if f.binds == nil {
+		f.binds = map[string]*bindInfo{}
+	}
+	k := fmt.Sprintf("%s%d", bindMark, len(f.binds))
+	f.binds[k] = b
+	return k
 }
 
 // escape records that the code being generated cannot be used as a plain
@@ -123,8 +174,8 @@ func (f *fn) lvaluePath(e ast.Expr) (*lvar, []step, []string) {
 		g = append(g, idx.g...)
 		switch kindOf(bt) {
 		case kBytes, kSlice:
-			if len(steps) == 0 && root.isParam {
-				f.unsupported(e, "element write through a slice parameter (the caller's memory is not represented)")
+			if len(steps) == 0 && root.isParam && !root.inout {
+				f.unsupported(e, "element write through a slice parameter that was not recognised as in-out")
 			}
 			is, ig := f.toNatIdx(idx, e.Index)
 			g = append(g, ig...)
@@ -255,6 +306,11 @@ func (f *fn) stmt(s ast.Stmt, k kont, fl *flow) string {
 		}
 		if len(s.Lhs) == 1 {
 			if c, ok := s.Rhs[0].(*ast.CallExpr); ok {
+				if id, ok := c.Fun.(*ast.Ident); ok {
+					if b, ok := f.pkg.info.Uses[id].(*types.Builtin); ok && b.Name() == "copy" {
+						return f.copyStmtN(c, s.Lhs[0], k)
+					}
+				}
 				if ci := f.effectful(c); ci != nil {
 					return f.callStmt(c, ci, []ast.Expr{s.Lhs[0]}, k)
 				}
@@ -401,6 +457,9 @@ func (f *fn) retText(vs []val, n ast.Node) string {
 	if f.info.mutates {
 		parts = append(parts, f.info.recv.name)
 	}
+	for _, pi := range f.info.inout {
+		parts = append(parts, f.info.params[pi].name)
+	}
 	for i, v := range vs {
 		cv := f.convVal(v, f.info.resTypes[i], n)
 		parts = append(parts, f.as(cv, f.info.resNat[i], n))
@@ -448,7 +507,7 @@ func (f *fn) effectful(c *ast.CallExpr) *fnInfo {
 		return nil
 	}
 	ci := f.x.translate(fo, f, c)
-	if ci.pure && !ci.mutates {
+	if ci.pure && !ci.mutates && len(ci.inout) == 0 {
 		return nil
 	}
 	return ci
@@ -494,7 +553,7 @@ func (f *fn) callStatement(c *ast.CallExpr, k kont) string {
 		}
 	}
 	ci := f.x.translate(fo, f, c)
-	if ci.pure && !ci.mutates {
+	if ci.pure && !ci.mutates && len(ci.inout) == 0 {
 		// a pure call whose results are discarded has no effect
 		_, g := f.callText(c, ci)
 		return f.guarded(g, k())
@@ -504,7 +563,10 @@ func (f *fn) callStatement(c *ast.CallExpr, k kont) string {
 
 // copy(dst, src) where dst is a local or a receiver field path (no aliasing is
 // represented): dst[:n] is overwritten with src[:n], n = min(len dst, len src)
-func (f *fn) copyStmt(c *ast.CallExpr, k kont) string {
+func (f *fn) copyStmt(c *ast.CallExpr, k kont) string { return f.copyStmtN(c, nil, k) }
+
+// copyStmtN: `copy(dst[lo:], src)`, optionally `n = copy(…)`
+func (f *fn) copyStmtN(c *ast.CallExpr, cnt ast.Expr, k kont) string {
 	dstE := c.Args[0]
 	lo := ""
 	var g []string
@@ -522,8 +584,8 @@ func (f *fn) copyStmt(c *ast.CallExpr, k kont) string {
 	}
 	root, steps, pg := f.lvaluePath(dstE)
 	g = append(g, pg...)
-	if len(steps) == 0 && root.isParam {
-		f.unsupported(c, "copy into a slice parameter (the caller's memory is not represented)")
+	if len(steps) == 0 && root.isParam && !root.inout {
+		f.unsupported(c, "copy into a slice parameter that was not recognised as in-out")
 	}
 	cur := f.expr(dstE)
 	src := f.expr(c.Args[1])
@@ -536,7 +598,20 @@ func (f *fn) copyStmt(c *ast.CallExpr, k kont) string {
 		nv = "(" + cur.s + ".take " + lo + " ++ (" + src.s + ".take (" + cur.s + ".length - " + lo + ") ++ " + cur.s + ".drop (" + lo + " + " + src.s + ".length)))"
 	}
 	up, ug := f.update(root.name, steps, nv)
-	return f.guarded(append(g, ug...), f.letVar(root, up)+k())
+	if cnt == nil {
+		return f.guarded(append(g, ug...), f.letVar(root, up)+k())
+	}
+	// the count uses the destination as it was before the copy
+	var n string
+	if lo == "" {
+		n = "(min " + cur.s + ".length " + src.s + ".length)"
+	} else {
+		n = "(min (" + cur.s + ".length - " + lo + ") " + src.s + ".length)"
+	}
+	name := fmt.Sprintf("cnt%d", f.tmpN)
+	f.tmpN++
+	return f.guarded(append(g, ug...), "let "+name+" : Nat := "+n+"\n"+f.letVar(root, up)+
+		f.assignTo(cnt, val{s: name, t: types.Typ[types.Int], nat: true}, k))
 }
 
 // callStmt: call of an effectful function whose results go to lhs (nil: discarded)
@@ -564,15 +639,21 @@ func (f *fn) callStmt(c *ast.CallExpr, ci *fnInfo, lhs []ast.Expr, k kont) strin
 	})
 }
 
-// callBind: evaluate the call, write a changed receiver back, bind the results
-// to the given names, continue with k
+// callBind: evaluate the call, write a changed receiver and changed in-out
+// slice arguments back, bind the results to the given names, continue with k
 func (f *fn) callBind(c *ast.CallExpr, ci *fnInfo, names []string, k kont) string {
+	g := f.hoistCall(c, ci, names)
+	return f.guarded(g, k())
+}
+
+// hoistCall produces the guard/bind list that evaluates the call and leaves its
+// results in `names`
+func (f *fn) hoistCall(c *ast.CallExpr, ci *fnInfo, names []string) []string {
 	text, g := f.callText(c, ci)
 	out := fmt.Sprintf("out%d", f.tmpN)
 	f.tmpN++
 	var b strings.Builder
-	// components of the callee's result tuple
-	n := len(names)
+	n := len(names) + len(ci.inout)
 	if ci.mutates {
 		n++
 	}
@@ -590,10 +671,13 @@ func (f *fn) callBind(c *ast.CallExpr, ci *fnInfo, names []string, k kont) strin
 		return s
 	}
 	i0 := 0
+	var wg []string
 	if ci.mutates {
 		sel := c.Fun.(*ast.SelectorExpr)
 		root, steps, pg := f.recvPath(sel)
-		g = append(g, pg...)
+		if len(pg) != 0 {
+			f.unsupported(c, "mutating method call on an indexed receiver")
+		}
 		nv, ug := f.update(root.name, steps, proj(0))
 		if len(ug) != 0 {
 			f.unsupported(c, "mutating method call on an indexed receiver")
@@ -601,16 +685,44 @@ func (f *fn) callBind(c *ast.CallExpr, ci *fnInfo, names []string, k kont) strin
 		b.WriteString(f.letVar(root, nv))
 		i0 = 1
 	}
+	for j, pi := range ci.inout {
+		// the callee wrote elements of its slice parameter: the argument sees them
+		arg := c.Args[pi]
+		lo := ""
+		if se, ok := arg.(*ast.SliceExpr); ok && se.High == nil && !se.Slice3 {
+			arg = se.X
+			if se.Low != nil {
+				v := f.expr(se.Low)
+				if len(v.g) != 0 {
+					f.unsupported(c, "in-out slice argument with a bound that can panic")
+				}
+				lo, _ = f.toNatIdx(v, se.Low)
+			}
+		}
+		root, steps, pg := f.lvaluePath(arg)
+		if len(pg) != 0 {
+			f.unsupported(c, "in-out slice argument that is indexed")
+		}
+		if len(steps) == 0 && root.isParam && !root.inout {
+			f.unsupported(c, "a slice parameter is passed to %s, which writes its elements (the parameter would have to be in-out here too)", ci.lean)
+		}
+		cur := f.expr(arg)
+		nv := proj(i0 + j)
+		if lo != "" {
+			nv = "(" + cur.s + ".take " + lo + " ++ " + nv + ")"
+		}
+		up, ug := f.update(root.name, steps, nv)
+		if len(ug) != 0 {
+			f.unsupported(c, "in-out slice argument that is indexed")
+		}
+		b.WriteString(f.letVar(root, up))
+	}
+	i0 += len(ci.inout)
 	for i, nm := range names {
 		b.WriteString("let " + nm + " := " + proj(i0+i) + "\n")
 	}
-	body := b.String() + k()
-	if ci.pure {
-		return f.guarded(g, "let "+out+" := "+text+"\n"+body)
-	}
-	f.escape("bind")
-	f.usedBind = true
-	return f.guarded(g, "Res.bind ("+text+") fun "+out+" =>\n"+body)
+	g = append(g, f.addBind(&bindInfo{out: out, text: text, pure: ci.pure, after: b.String()}))
+	return append(g, wg...)
 }
 
 // recvPath: lvalue path of the receiver of a method call (through embedded fields)
@@ -632,6 +744,11 @@ func (f *fn) recvPath(sel *ast.SelectorExpr) (*lvar, []step, []string) {
 func (f *fn) multiAssign(s *ast.AssignStmt, k kont) string {
 	switch r := s.Rhs[0].(type) {
 	case *ast.CallExpr:
+		if sel, ok := r.Fun.(*ast.SelectorExpr); ok {
+			if fi := f.externField(sel.X); fi != nil {
+				return f.externCall(s.Lhs, r, fi, k)
+			}
+		}
 		fo := f.calleeOf(r)
 		if fo == nil {
 			f.unsupported(s, "multi-value call")
@@ -660,6 +777,54 @@ func (f *fn) multiAssign(s *ast.AssignStmt, k kont) string {
 	}
 	f.unsupported(s, "multi-value assignment")
 	return ""
+}
+
+// externCall: call of a method of an external object (an argument of the
+// translated function); `none` = the call does not return
+func (f *fn) externCall(lhs []ast.Expr, c *ast.CallExpr, fi *fieldInfo, k kont) string {
+	fo := f.calleeOf(c)
+	sig := fo.Type().(*types.Signature)
+	lv := f.externByName[fi.name+"_"+fo.Name()]
+	if lv == nil {
+		f.unsupported(c, "internal: external operation not registered")
+	}
+	var g []string
+	text := lv.name
+	for i, a := range c.Args {
+		v := f.expr(a)
+		g = append(g, v.g...)
+		cv := f.convVal(v, sig.Params().At(i).Type(), a)
+		text += " " + f.as(cv, false, a)
+	}
+	n := sig.Results().Len()
+	if len(lhs) != n {
+		f.unsupported(c, "external call with %d results assigned to %d targets", n, len(lhs))
+	}
+	out := fmt.Sprintf("ext%d", f.tmpN)
+	f.tmpN++
+	proj := func(i int) string {
+		if n == 1 {
+			return out
+		}
+		s := out
+		for j := 0; j < i; j++ {
+			s += ".2"
+		}
+		if i < n-1 {
+			s += ".1"
+		}
+		return s
+	}
+	var chain func(i int) string
+	chain = func(i int) string {
+		if i == n {
+			return k()
+		}
+		return f.assignTo(lhs[i], val{s: proj(i), t: sig.Results().At(i).Type()}, func() string { return chain(i + 1) })
+	}
+	f.escape("external call")
+	f.usedBind = true
+	return f.guarded(g, "(match "+text+" with\n  | none => Res.blocked\n  | some "+out+" =>\n"+indent(indent(chain(0)))+")")
 }
 
 func (f *fn) bindTuple(s *ast.AssignStmt, vs []val, k kont) string {
@@ -745,7 +910,7 @@ func (f *fn) assignedOuter(lists [][]ast.Stmt) []*lvar {
 					note(n.X, lo, hi)
 				case *ast.CallExpr:
 					// mutating method calls and delete/copy change their receiver/target
-					if sel, ok := n.Fun.(*ast.SelectorExpr); ok {
+					if sel, ok := n.Fun.(*ast.SelectorExpr); ok && !f.isExternCall(n) {
 						if _, ok := f.pkg.info.Selections[sel]; ok {
 							if fo := f.calleeOf(n); fo != nil && !f.isMutexCall(n) && !f.x.isSpecial(fo) {
 								if ci := f.x.translate(fo, f, n); ci.mutates {
@@ -787,7 +952,14 @@ func (f *fn) ifChain(n ast.Node, brs []branch, els []ast.Stmt, k kont, fl *flow)
 	// guards of condition i are only evaluated when conditions 0..i-1 were false
 	var condG []string
 	for i, b := range brs {
+		if i > 0 && hasBind(b.g) {
+			f.unsupported(b.node, "`else if` condition that calls a function which can panic")
+		}
 		for _, g := range b.g {
+			if isBind(g) {
+				condG = append(condG, g)
+				continue
+			}
 			pre := ""
 			for j := 0; j < i; j++ {
 				pre += brs[j].cond + " || "
@@ -948,6 +1120,7 @@ func (f *fn) switchStmt(s *ast.SwitchStmt, k kont, fl *flow) string {
 // receiver of a mutating method
 func (f *fn) loopParams(entry, from token.Pos) []*lvar {
 	var out []*lvar
+	out = append(out, f.info.externs...)
 	for _, lv := range f.order {
 		if lv.obj.Pos() >= entry {
 			continue
@@ -1026,6 +1199,9 @@ func (f *fn) resultType() string {
 	if f.info.mutates {
 		parts = append(parts, f.x.leanType(f.info.recv.typ, false))
 	}
+	for _, pi := range f.info.inout {
+		parts = append(parts, f.x.leanType(f.info.params[pi].typ, false))
+	}
 	for i, t := range f.info.resTypes {
 		parts = append(parts, f.x.leanType(t, f.info.resNat[i]))
 	}
@@ -1045,6 +1221,10 @@ func (f *fn) resultType() string {
 func (f *fn) binders(ps []*lvar) string {
 	var b strings.Builder
 	for _, p := range ps {
+		if p.leanT != "" {
+			b.WriteString(" (" + p.name + " : " + p.leanT + ")")
+			continue
+		}
 		b.WriteString(" (" + p.name + " : " + f.x.leanType(p.typ, p.nat) + ")")
 	}
 	return b.String()
